@@ -266,6 +266,32 @@ def check_expectation(sc, o):
     return why
 
 
+def check_values_generic(o):
+    """what can be said about the recorded values of ANY doctest, without the generator's bookkeeping: an executed part has a
+    recorded value only if its final statement is an expression (anything else is a value left over from an earlier part)"""
+    import ast as _ast
+    from xdoctest import constants
+    why = []
+    ex = o['ex']
+    for idx, part in enumerate(o['parts']):
+        if idx not in o['logged_stdout'] or idx == o.get('failidx') or part.compile_mode == 'single':
+            continue
+        ev = ex.logged_evals.get(idx, constants.NOT_EVALED)
+        if ev is constants.NOT_EVALED:
+            continue
+        try:
+            body = _ast.parse('\n'.join(part.exec_lines)).body
+        except SyntaxError:
+            continue
+        if body and not isinstance(body[-1], _ast.Expr):
+            try:
+                r = repr(ev)
+            except Exception:
+                r = 'RAISES'
+            why.append('part %d %r recorded the value %s, but its final statement is not an expression' % (idx, part.exec_lines, r))
+    return why
+
+
 def check_primitives(sc, o):
     """the primitive results recorded for every executed part (its stdout, the value of its final
     expression) against what the generator knows by construction: a part's stdout is what ITS
